@@ -21,7 +21,7 @@ ASSUMPTIONS = [
     "key-row lemma (row r of a key encrypts s_in 2^-((r+1) dsize b) under s_out with |e| <= 20 * 2^-k) is a named Section hypothesis of the phase theorems; "
     "it is checked on every freshly generated key by the oracle (code 3090), not proved for the key-encryption routine",
     "per-column normalisation value facts are taken from C08 (hypothesis normalize_value_ok where used)",
-    "every operation runs in exactly its declared tmp_bytes, except glwe_pack and glwe_from_lwe, whose size queries ignore inputs larger than the result (C12's property)",
+    "every operation runs in exactly its declared tmp_bytes; glwe_pack inputs are no larger than the result (the size query is sized for the result layout and larger inputs are rejected at entry)",
     "GLWEPacker is exercised with log_batch = 0 only; LWE key-switch, packing and the packer are checked at level L2 only",
 ]
 TRUSTED = ["secret coefficients are read through glwe_decrypt of a crafted ciphertext (GLWESecret has no public accessor)",
